@@ -28,8 +28,8 @@ const (
 	delivRealTransport = 8 // through net/http's transport from an httptest.Server, chunked
 	nDeliv             = 9 // forms 0..8 leave the outcome to the bytes alone
 
-	// Bodies that never end: the bytes, then a reader that blocks for ever / that trickles one
-	// blank at a time for ever.  They are only scripted where the code has no reason to read
+	// Bodies that never end: the bytes, then a reader that blocks for ever / that delivers
+	// blanks at full speed for ever.  They are only scripted where the code has no reason to read
 	// past the bytes (see gen.go 6f): there the call must return within the watchdog's patience.
 	delivThenBlocks   = 9
 	delivThenTrickles = 10
@@ -57,11 +57,15 @@ func (e *endless) Read(p []byte) (int, error) {
 			return 0, errors.New("read on closed body")
 		default:
 		}
-		if e.n++; e.n%4096 == 0 {
+		// blanks at full speed, for ever: a reader that stops at ANY finite limit returns at
+		// once, only one that reads to EOF never does (no constant of the code is assumed)
+		if e.n++; e.n%256 == 0 {
 			time.Sleep(time.Millisecond) // a reader that drains for ever should not burn a core
 		}
-		p[0] = ' '
-		return 1, nil
+		for i := range p {
+			p[i] = ' '
+		}
+		return len(p), nil
 	}
 	<-e.closed
 	return 0, errors.New("read on closed body")
